@@ -165,7 +165,7 @@ def build_model():
         sh(f"cp {ROOT}/ocaml/*.ml {outdir}/")
         mls = ["extra.ml", "util.ml"] + sorted(f for f in os.listdir(os.path.join(ROOT, "ocaml"))
                                     if f.endswith(".ml") and f not in ("extra.ml", "util.ml", "driver.ml")) + ["driver.ml"]
-        rc, out2 = sh("ocamlfind ocamlopt -O3 -w -a model.mli model.ml " + " ".join(mls) + " -o model_driver",
+        rc, out2 = sh("ocamlfind ocamlopt -package str -linkpkg -O3 -w -a model.mli model.ml " + " ".join(mls) + " -o model_driver",
                       cwd=outdir, timeout=600)
         if rc != 0:
             return None, out + out2
